@@ -27,6 +27,7 @@ R1 == Ref(T("r1"), <<>>)
 Paths == {<<a>>, <<b>>, <<a, b>>, <<a, b, c>>, <<c, a, b, c>>}
 Ops == {"==", "!=", "<", "<=", ">", ">="}
 Lits == {One, Two, OneM, OneS, Str(T("x")), Bool(TRUE), Date(2021, 1, 1), Time(12, 0, 0, 0), R1, Uri(T("u")), Symbol(T("s"))}
+FChars == {97, 32, 34, 92, 36, 96, 39, 0, 1, 8, 9, 10, 12, 13, 27, 31, 127, 173, 233, 769, 8203, 8364, 65279, 128512}
 MoreLits == {N("-1.5", <<>>), N("1000000000000000000000", <<>>), N("0.001", <<T("kWh")>>), N("2.5e10", <<>>),
              Str(<<34>>), Str(<<92>>), Str(<<36>>), Str(<<10>>), Str(<<233>>), Str(<<128512>>), Str(<<>>), Str(T("a and b")),
              Bool(FALSE), Date(2020, 2, 29), Time(23, 59, 59, 123000000),
@@ -35,6 +36,11 @@ MoreLits == {N("-1.5", <<>>), N("1000000000000000000000", <<>>), N("0.001", <<T(
              DateTime(DaysFromCivil(2021, 1, 15), 43200, 0, 0, T("London")),
              Ref(T("a-b:c.d~e_1"), <<>>), Ref(T("r"), <<T("dis name")>>), Ref(T("r"), <<<<34>>>>), Uri(T("http://x/y?z=1")), Uri(<<96>>),
              Symbol(T("lib:ph")), Symbol(T("a-b"))}
+            \* one character of every class a string writer or reader may treat specially: C0 controls with and without a short
+            \* escape, DEL, soft hyphen, combining mark, zero-width space, BOM, the quote characters, BMP and astral letters
+            \cup {Str(<<ch>>) : ch \in FChars} \cup {Str(<<97, ch, 98>>) : ch \in {1, 127, 769}}
+            \cup {Uri(<<ch>>) : ch \in FChars \ {0, 1, 8, 9, 10, 12, 13, 27, 31}}
+            \cup {Ref(T("r"), <<<<ch>>>>) : ch \in {1, 10, 34, 92, 36, 127, 769, 8364}}
 
 Has(p) == [t |-> "has", path |-> p]
 Missing(p) == [t |-> "missing", path |-> p]
